@@ -12,7 +12,7 @@ import random
 import vlib
 
 LEVEL = "model_checking"
-SQF = ["setg1", "setg2", "readg", "readcfg", "ppfail", "parsefail", "rterr", "rterr_spawned", "endless", "sleeper", "empty"]
+SQF = ["setg1", "setg2", "readg", "readcfg", "ppfail", "parsefail", "rterr", "rterr_spawned", "endless", "sleeper", "napper", "napper", "empty"]
 CFG = ["cfgok", "cfgparsefail", "cfgppfail"]
 
 
@@ -41,11 +41,11 @@ def random_histories(rng, n, length):
             elif r < 0.1:
                 h.append({"op": "status", "i": i})
             elif r < 0.15:
-                h.append({"op": "null", "i": 0, "what": rng.choice(["call", "config", "status"])})
+                h.append({"op": "null", "i": 0, "what": rng.choice(["call", "callempty", "config", "status"])})
             elif r < 0.3:
                 h.append({"op": "config", "i": i, "kind": rng.choice(CFG)})
             elif r < 0.4:
-                h.append({"op": "call", "i": i, "type": rng.choice(["p", "1", "?"]), "kind": rng.choice(["setg1", "ppfail", "parsefail"])})
+                h.append({"op": "call", "i": i, "type": rng.choice(["p", "1", "?"]), "kind": rng.choice(["setg1", "ppfail", "parsefail", "empty"])})
             else:
                 k = rng.choice(SQF)
                 if k in ("endless", "sleeper") and not alive[i]:
